@@ -64,7 +64,7 @@ def add_alts(rng, case):
 
 def cases(rng, tier):
     n = 9000 if tier == 'quick' else 120000
-    out = [add_alts(rng, c) for c in K.gen_checker_cases(rng, n)]
+    out = [add_alts(rng, c) for c in K.gen_checker_cases(rng, n) + K.name_family()]
     if tier == 'thorough':
         vals = K.small_values()
         for at in K.small_terms():
